@@ -478,6 +478,9 @@ def decide(prop, tier, seed, a, rundir, woven, t0):
     lost = meta.get("lost") or {}
     for r, l in lost.items():
         print("DEGRADED property=%s recipe=%s units=%d tags=%s reason=%s" % (prop, r, len(l["units"]), ",".join(l["tags"]), l["reason"][:200]))
+    if lost and tree_is_baseline(a.repo):
+        print("UNDECIDED property=%s reason=a contract recipe lost its anchors on the baseline tree: the contract store is out of date" % prop)
+        return 2
     lost_tags = {t for l in lost.values() for t in l["tags"]} | ({"C12"} if lost else set())
     if prop in lost_tags:
         why = "; ".join("contract recipe %s lost its anchors (%s)" % (r, l["reason"][:160]) for r, l in lost.items() if prop in l["tags"] or prop == "C12")
@@ -663,7 +666,23 @@ def bounded_only(prop, tier, seed, reason, ws, info, t0, cmd=None):
     os.makedirs(evdir, exist_ok=True)
     with open(os.path.join(evdir, "%s.json" % prop), "w") as f:
         json.dump(ev, f, indent=1)
-    return 2 if os.environ.get("VERIF_STRICT") == "1" else 0
+    if os.environ.get("VERIF_STRICT") == "1" or tree_is_baseline(REPO[0]):
+        # on the tree the contract store was written for, an undecided run means the machinery is broken
+        print("UNDECIDED property=%s reason=undecided on the baseline tree (or VERIF_STRICT=1): %s" % (prop, reason[:200]))
+        return 2
+    return 0
+
+
+def tree_is_baseline(repo):
+    """is the source tree under check the one recorded in /verif/baseline_tree.txt (written by tools/allchecks.sh
+    after every claimed check passed on it)?"""
+    try:
+        want = open(os.path.join(VERIF, "baseline_tree.txt")).read().split()[0]
+        r = subprocess.run(["git", "-C", repo, "rev-parse", "HEAD:src"], capture_output=True, text=True)
+        d = subprocess.run(["git", "-C", repo, "status", "--porcelain", "--", "src"], capture_output=True, text=True)
+        return r.returncode == 0 and d.returncode == 0 and r.stdout.strip() == want and not d.stdout.strip()
+    except (OSError, IndexError):
+        return False
 
 
 def write_replay(prop, viol, cmd, diags, ws, note=None):
